@@ -20,15 +20,48 @@ def fields_jobs(harness, prefixes, which, tier="quick"):
     return jobs
 
 
+C11_GROUPS = {
+    1: ["h_cmphdr", "h_msghdr", "h_tecmphdr"],
+    2: ["h_linhdr", "h_linpay", "h_ethhdr", "h_ethpay"],
+    3: ["h_anahdr", "h_anapay", "h_cmhdr", "h_cmpay"],
+    4: ["h_ifhdr", "h_ifpay", "h_tcan", "h_tlin"],
+    5: ["h_tif", "h_tcm"],
+}
+C11_FLAGOPS = {1: ["h_msghdr_flag"], 2: ["h_linhdr_flag", "h_linpay_flag", "h_ethpay_flag", "h_canpay_flag"]}
+
+
+def c11_more(which):
+    jobs = []
+    for g, prefixes in C11_GROUPS.items():
+        for p in prefixes:
+            suffixes = ["_c11"] if which == 11 else ["_c12", "_c12_default"]
+            for sfx in suffixes:
+                jobs.append(Job("c11_more.cpp", p + sfx, defs={"GROUP": g}, unwind=60, in_max=96, mem_gb=3,
+                                sym="all object bytes (any prior state), which setter, written value (full in-range)" if sfx != "_c12_default" else "none (default-constructed object)"))
+    for g, prefixes in C11_FLAGOPS.items():
+        for p in prefixes:
+            if which == 12 and p == "h_linhdr_flag":
+                continue
+            jobs.append(Job("c11_more.cpp", p + ("_c11" if which == 11 else "_c12"), defs={"GROUP": g}, unwind=60, in_max=96, mem_gb=3,
+                            sym="all object bytes (any prior state), which flag enumerator, set or clear"))
+    if which == 11:
+        jobs.append(Job("c11_more.cpp", "h_packet_c11", defs={"GROUP": 6}, unwind=20, in_max=64, mem_gb=2, sym="all member values, which setter, written value"))
+        jobs.append(Job("c11_more.cpp", "h_payloadtype_c11", defs={"GROUP": 6}, unwind=20, in_max=32, mem_gb=2, sym="packed type value, written value"))
+    else:
+        jobs.append(Job("c11_more.cpp", "h_sizes1", defs={"GROUP": 1}, sym="none"))
+        jobs.append(Job("c11_more.cpp", "h_sizes2", defs={"GROUP": 2}, sym="none"))
+    return jobs
+
+
 def c11_jobs():
     j = fields_jobs("c11_can.cpp", ["h_canhdr", "h_canpay", "h_canfdpay"], 11)
-    return j
+    return j + c11_more(11)
 
 
 def c12_jobs():
     j = fields_jobs("c11_can.cpp", ["h_canhdr", "h_canpay", "h_canfdpay"], 12)
     j.append(Job("c11_can.cpp", "h_can_sizes", sym="none"))
-    return j
+    return j + c11_more(12)
 
 
 PROPS = {
@@ -403,13 +436,15 @@ def c14_jobs():
                 for pt in (0xFE, 1):
                     if pt == 1 and la not in (8,):
                         continue
-                    quick = (la in (-1, 8) and lb in (-1, 8) and pt == 0xFE) or (op in (0, 2) and pt == 1 and lb == -1) or (op == 4 and la == 0)
+                    quick = (la in (-1, 8) and lb in (-1, 8) and pt == 0xFE) or (op in (0, 2) and pt == 1 and lb == -1) or (la == 0 and lb in (-1, 8) and pt == 0xFE)
                     la2 = 24 if (pt == 1 and la == 8) else la
                     jobs.append(Job("c14.cpp", "h_packet_value", defs={"OP": op, "LA": la2, "LB": lb, "PT": pt}, tier="quick" if quick else "thorough", sym=sym, **common))
     for la in (-1, 0, 1, 8):
         for lb in (-1, 0, 1, 8):
             quick = (la, lb) in ((8, 8), (-1, -1), (0, 0), (8, 1), (-1, 0))
             jobs.append(Job("c14.cpp", "h_packet_eq", defs={"LA": la, "LB": lb}, tier="quick" if quick else "thorough", sym=sym, **common))
+    for la in (1, 8):
+        jobs.append(Job("c14.cpp", "h_packet_assign_diff", defs={"LA": la}, tier="quick", sym="message bytes, which field differs", **common))
     for la in (0, 1, 8):
         for lb in (0, 1, 8):
             quick = (la, lb) in ((8, 8), (0, 0), (1, 8))
@@ -480,18 +515,21 @@ def tecmp_jobs():
 
     def add(n, mt, dt=-1, dlc=-1, decl=-1, tier="quick"):
         e = max((n - 40) // 12, 0) + 2
-        jobs.append(Job("tecmp.cpp", "h_tecmp", defs={"N": n, "MT": mt, "DT": dt, "DLC": dlc, "DECL": decl}, unwind=220,
+        jobs.append(Job("tecmp.cpp", "h_tecmp", defs={"N": n, "MT": mt, "DT": dt, "DLC": dlc, "DECL": decl}, unwind=max(220, n + 20),
                         unwindset={("TECMP7Decoder", None): e + 1, ("_M_realloc_insert", None): e + 1, ("_M_release", None): 3, ("_Sp_counted", None): 3},
                         tier=tier, in_max=n + 8, mem_gb=6,
                         sym="every frame byte except byte 0 (= 0, TECMP routing), the message type byte, the declared payload length and (data messages) the data type and the inner "
                             "dlc / data-length byte: device id, counter, version, flags, interface id, timestamp, data flags, arbitration id / pid, all data bytes; "
                             "bus status: data type symbolic over all 65536 values",
-                        outside="frames > 76 bytes; message type bytes other than 0,2,3,4,0x0A,0x55,0xFF; TECMP capture-module status (message type 1): its conversion calls "
+                        outside="data frames > 76 bytes, bus-status frames > 520 bytes (40 entries); message type bytes other than 0,2,3,4,0x0A,0x55,0xFF; TECMP capture-module status (message type 1): its conversion calls "
                                 "std::stringstream / std::to_string, which live in libstdc++.so and have no IR"))
 
     # bus status: data type symbolic, every size
     for n in range(0, 77):
         add(n, 2, tier="quick" if n in (12, 28, 33, 39, 40, 51, 52, 64, 76) else "thorough")
+    # long bus-status messages (property: 0..40 entries)
+    for n, tier in ((28 + 12 + 12 * 22, "quick"), (28 + 12 + 12 * 40, "thorough"), (28 + 12 + 12 * 30 + 5, "thorough")):
+        add(n, 2, tier=tier)
     # unsupported message kinds
     for mt in (0, 4, 0x0A, 0x55, 0xFF):
         for n in (28, 40, 60):
